@@ -252,6 +252,22 @@ func (vc *VC) Discharge(obls []*Obligation, workDir string, quickMs, slowMs int)
 			res = r.lines[0]
 		}
 		o.Result, o.Solver, o.Ms = res, "z3-new", r.dur.Milliseconds()
+		if !o.Cover && res == "unsat" && vc.crossCheck {
+			// thorough tier: the other two solvers must not contradict a proof
+			for _, sv := range solvers[1:] {
+				rr := runSolver(context.Background(), sv, sf, quickMs, false, time.Duration(quickMs+3000)*time.Millisecond)
+				if rr.err == nil && len(rr.lines) > 0 {
+					switch rr.lines[0] {
+					case "sat":
+						setErr(fmt.Errorf("%s obligation %s: solvers disagree (z3-new unsat, %s sat; script %s)", vc.key, o.Name, sv.name, sf))
+						return
+					case "unsat":
+						o.Solver += "+" + sv.name
+					}
+				}
+				o.Ms += rr.dur.Milliseconds()
+			}
+		}
 		if o.Cover || res == "unsat" {
 			os.Remove(sf)
 			return
@@ -326,7 +342,7 @@ func (vc *VC) Discharge(obls []*Obligation, workDir string, quickMs, slowMs int)
 		wg.Add(1)
 		go func(idxs []int) {
 			defer wg.Done()
-			if len(idxs) > 1 {
+			if len(idxs) > 1 && !vc.crossCheck {
 				var goals []string
 				for _, i := range idxs {
 					goals = append(goals, obls[i].Goal)
